@@ -30,6 +30,12 @@ class C20(Check):
                 cs.append(Case("atype %s -" % n, "atype-empty", nontrivial=False))
                 for ln in range(1, 81):
                     cs.append(Case("atype %s %s" % (n, blob(first, ln).hex()), "atype"))
+        # blobs that are all zero after the tag (a zero payment id is a legal payment id), and all 0xff
+        for n in ("main", "test", "stage"):
+            for first in range(256):
+                for ln in (1, 64, 65, 72, 73, 74, 77, 80):
+                    for fill in (0x00, 0xff):
+                        cs.append(Case("atype %s %s" % (n, (bytes([first]) + bytes([fill]) * (ln - 1)).hex()), "atype-uniform-fill"))
         # the empty blob is listed once per network as non-trivial
         for n in ("main", "test", "stage"):
             cs.append(Case("atype %s -" % n, "atype-empty"))
